@@ -71,7 +71,9 @@ func TestVerifDiffRenaming(t *testing.T) {
 			for id := range freq {
 				ids = append(ids, id)
 			}
-			sort.Slice(ids, func(i, j int) bool { return freq[ids[i]] > freq[ids[j]] || (freq[ids[i]] == freq[ids[j]] && ids[i] < ids[j]) })
+			sort.Slice(ids, func(i, j int) bool {
+				return freq[ids[i]] > freq[ids[j]] || (freq[ids[i]] == freq[ids[j]] && ids[i] < ids[j])
+			})
 			type swap struct{ a, b rune }
 			var swaps []swap
 			for i, special := range []rune{10, 13, 32, 9} {
